@@ -176,7 +176,8 @@ PROFILES.update({
     "boot": {"watchers": 4, "autostart": True, "patterns": 0.5, "hooks": ["before_spawn", "after_spawn"], "slowhooks": 0.8,
              "Ws": [0.0, 0.1, 0.2, 0.3], "wgs": [0.0, 0.1, 0.3, 0.5], "cmds": ["restart", "start", "stop"], "steps": 8, "kcall_deaths": 0.6,
              "check_delays": [1.0, 2.0]},
-    "shutdown": {"dsig": 0.5, "cmds": ["quit", "stop", "restart", "incr", "kill", "status"], "stubborn": 0.4,
+    "shutdown": {"dsig": 0.5, "cmds": ["quit", "stop", "restart", "incr", "kill", "status", "start", "start"], "stubborn": 0.4,
+                 "autostart": True, "watchers": 3,
                  "partial": 0.4, "steps": 14, "xprobe": False},
 })
 
@@ -549,6 +550,31 @@ def overlap_profile(seed):
 
 PROFILES["term"] = term_profile
 
+
+_SHUTDOWN_BASE = PROFILES["shutdown"]
+
+
+def shutdown_profile(seed):
+    """Random shutdown scenarios, plus (every 5th seed) a template: a termination signal arrives at the beginning of an
+    exclusive operation that takes LONG (a stubborn worker with a grace period of several seconds): however long the
+    operation in flight takes, the signal is not lost."""
+    import random
+    if seed % 5 != 2:
+        return scenario.gen_scenario(seed, _SHUTDOWN_BASE)
+    rng = random.Random(seed)
+    G = rng.choice([5.5, 6.0, 7.0])
+    ws = [{"name": "w1", "np": 1, "G": G, "W": 0.0}, {"name": "w2", "np": rng.choice([1, 2]), "G": 0.2, "W": 0.0}]
+    s = [{"op": "boot"}, {"op": "tick", "n": rng.randint(2, 6)},
+         {"op": "req", "cmd": rng.choice(["restart", "stop", "reload"]), "props": {"name": "w1", "waiting": rng.random() < 0.5}},
+         {"op": "tick", "n": rng.randint(1, 3)},
+         {"op": "dsig", "sig": rng.choice([scenario.SIGTERM, scenario.SIGINT, scenario.SIGQUIT])},
+         {"op": "tick", "n": int(G * 10) + 30},
+         {"op": "end", "xprobe": False, "passes": 1}]
+    return {"seed": seed, "watchers": ws, "check_delay": 2.0, "warmup_delay": 0.0,
+            "stubborn": ["w1"], "obeys": [True], "instant_death": False, "script": s}
+
+
+PROFILES["shutdown"] = shutdown_profile
 
 _STOP_BASE = PROFILES["stop"]
 
